@@ -46,7 +46,8 @@ def gen_cases(seed, tier):
         cases.append(dict(kind="gen", spec=spec, gamma=g, epsilon=eps, test=str(rng.choice(["span", "max_diff"])),
                           max_eval_iter=budget, reset=bool(rng.integers(0, 2)),
                           max_batch_size=common.batch_choices(rng, spec["S"]), devices=int(rng.choice(devs)),
-                          ninj=16 if tier == "quick" else 40, iseed=int(rng.integers(0, 2**31 - 1))))
+                          ninj=16 if tier == "quick" else 40, iseed=int(rng.integers(0, 2**31 - 1)),
+                          warm=[None, None, None, "incumbent", "flat"][int(rng.integers(0, 5))]))
     return cases
 
 
@@ -74,10 +75,15 @@ def run_case(case):
 
     from vf import target
 
-    problem, nxt, rew, prob, scale, struct, iface, t = common.build_problem(case)
+    g, eps, test, budget = case["gamma"], case["epsilon"], case["test"], case["max_eval_iter"]
+    if case.get("warm"):
+        from vf.props.c01 import warm_problem
+
+        problem, nxt, rew, prob, scale, struct, iface, t = warm_problem(case, g)
+    else:
+        problem, nxt, rew, prob, scale, struct, iface, t = common.build_problem(case)
     P, R = refmdp.tables(nxt, rew, prob)
     S, A = R.shape
-    g, eps, test, budget = case["gamma"], case["epsilon"], case["test"], case["max_eval_iter"]
     thr = eps * (1 - g) / g
     aspace = np.asarray(problem.action_space)
     kw = dict(gamma=g, epsilon=eps, convergence_test=test, max_eval_iter=budget,
